@@ -253,6 +253,15 @@ def layouts() -> List[Tuple[str, Any]]:
         src += "    return f_{}\n".format(k)
         return src, "outer_{}()".format(k)
 
+    @add("function-nested-seven-levels-deep")
+    def _(k, lam, e, d, ek, fp):
+        # (28 blanks in front of the decorator: no limit on the indentation may be built in)
+        src = ("class VeryDeep_{}:\n    class Inner:\n        def make(self):\n            if True:\n                for _ in (0,):\n"
+               "                    try:\n                        with open(__file__):\n").format(k)
+        src += _fn("@icontract.require(\n    lambda {}: {},\n    description={!r}{})".format(lam, e, d, ek), fp, k, indent=" " * 28)
+        src += " " * 28 + "return f_{}\n".format(k) + " " * 20 + "finally:\n" + " " * 24 + "pass\n"
+        return src, "VeryDeep_{}.Inner().make()".format(k)
+
     @add("function-in-method-deep")
     def _(k, lam, e, d, ek, fp):
         src = "class Deep_{}:\n    def make(self):\n        if True:\n".format(k) + _fn(
